@@ -454,6 +454,10 @@ func scriptsFromRanges(ranges [][2]rune) ScriptSet {
 			// 'item' and 'ra' have an intersection : add the script
 			out.insert(item.Script)
 
+			if item.End >= end {
+				// the item may also intersect the next range : do not consume it
+				break
+			}
 			indexS++
 		}
 
